@@ -225,6 +225,7 @@ func (r *replicator) replicate(
 	var (
 		newestOffset = r.partition.log.NewestOffset()
 		message      commitlog.SerializedMessage
+		written      int
 		err          error
 	)
 	for offset < newestOffset && int64(r.writer.Len()) < r.partition.srv.config.Clustering.ReplicationMaxBytes {
@@ -235,9 +236,11 @@ func (r *replicator) replicate(
 		}
 
 		// Check if this message will put us over the batch size limit. If it
-		// does, flush the batch now.
+		// does, flush the batch now. The batch always contains at least one
+		// message, otherwise the replica could never get past a message whose
+		// size plus the protocol overhead exceeds the limit.
 		batchSize := int64(len(message)) + int64(len(r.headersBuf)) + int64(r.writer.Len())
-		if batchSize > r.partition.srv.config.Clustering.ReplicationMaxBytes {
+		if batchSize > r.partition.srv.config.Clustering.ReplicationMaxBytes && written > 0 {
 			break
 		}
 
@@ -246,6 +249,7 @@ func (r *replicator) replicate(
 			r.partition.srv.logger.Errorf("Failed to write message to buffer while replicating: %v", err)
 			return err
 		}
+		written++
 	}
 
 	// Flush the batch.
